@@ -75,11 +75,27 @@ ASSUME = ('virtual pool abstraction (DESIGN 2.5): PULL/FIN/DEL atomic, '
 
 
 def main(tier):
+    scns = menu(tier)
+
+    def extra(rep):
+        # REAL conformance tier: model traces of the -j 1 scenarios replayed
+        # against bin/ddsmt with the command model as a real script
+        from .. import conform
+        j1 = [s for s in scns if s['name'].endswith('/j1')]
+        if tier != 'thorough':
+            j1 = j1[rep.seed % 3::3]
+        conform.j1_conformance(rep, j1)
+
     return schedcheck.run(
-        PROP, 'model_checking', tier, menu(tier), oracles.judge_c01,
-        budgets_of, RULE, ASSUME,
+        PROP, 'model_checking', tier, scns, oracles.judge_c01,
+        budgets_of, RULE + '; REAL tier: the default-schedule model trace '
+        'of -j 1 scenarios (a third of them per quick run, rotated by '
+        'VERIF_SEED; all in thorough) is replayed against bin/ddsmt with '
+        'the command model as a real script: the sequence of candidates the '
+        'command sees and the output must be reproduced by a model '
+        'execution (trace inclusion, <= 3 schedule deviations)', ASSUME,
         vacuity={'executions_with_output': 10,
-                 'executions_with_two_results_in_flight': 1})
+                 'executions_with_two_results_in_flight': 1}, extra=extra)
 
 
 def replay(rec):
